@@ -8,6 +8,7 @@ import (
 	"io"
 	"net/http"
 	"sync"
+	"sync/atomic"
 	"time"
 
 	"github.com/thushan/olla/internal/adapter/translator"
@@ -514,6 +515,17 @@ func (a *Application) executeTranslatedStreamingRequest(
 		return fmt.Errorf("request cancelled while waiting for backend headers: %w", ctx.Err())
 	}
 
+	// The proxy finished without writing a status or a byte: every attempt failed. Report
+	// that error instead of translating the empty stream into a 200 with an empty message
+	if !streamRecorder.wrote.Load() {
+		proxyErr := <-proxyErrChan
+		if proxyErr != nil {
+			pipeReader.Close()
+			return fmt.Errorf("proxy request failed: %w", proxyErr)
+		}
+		proxyErrChan <- proxyErr // nothing failed, carry on and let the wait below see the result
+	}
+
 	// handle backend errors before starting sse stream
 	if streamRecorder.status >= 400 {
 		a.handleStreamingBackendError(w, pipeReader, streamRecorder, proxyErrChan, pr, trans)
@@ -862,6 +874,7 @@ type streamingResponseRecorder struct {
 	headersReady chan struct{}
 	closeOnce    sync.Once
 	status       int
+	wrote        atomic.Bool // the proxy called Write or WriteHeader
 }
 
 func newStreamingResponseRecorder(w io.Writer) *streamingResponseRecorder {
@@ -884,12 +897,14 @@ func (r *streamingResponseRecorder) ensureHeadersReady() {
 }
 
 func (r *streamingResponseRecorder) Write(data []byte) (int, error) {
+	r.wrote.Store(true)
 	r.ensureHeadersReady()
 	return r.writer.Write(data)
 }
 
 func (r *streamingResponseRecorder) WriteHeader(statusCode int) {
 	r.status = statusCode // Capture status code to detect backend errors
+	r.wrote.Store(true)
 	r.ensureHeadersReady()
 	// Don't propagate the status write for streaming; just mark headers sent.
 }
